@@ -34,6 +34,18 @@ def maybe(rng, p):
     return rng.random() < p
 
 
+def drop_defaults(rng, op, p=0.12):
+    """omit formatting/model arguments so that the library's own default values are what is compared"""
+    for k in ('indent', 'compact'):
+        if k in op and maybe(rng, p):
+            del op[k]
+    if op.get('op') in ('format', 'format_triples', 'encode') and maybe(rng, 0.3):
+        op['viaCodec'] = True        # the PENMANCodec method (its own default arguments) instead of the function
+    if op.get('model') == 'default' and maybe(rng, p):
+        del op['model']
+    return op
+
+
 def s_parse_random(rng):
     k = rng.random()
     if k < 0.6:
@@ -66,6 +78,10 @@ def triples_string(rng):
         s = s.replace(', ', rng.choice([',', ' , ', ' ,', ', ']))
     if k > 0.7:
         s = s.replace(' ^', rng.choice(['^', ' ^ ', ' ^']))
+    elif k > 0.5:
+        # a different spelling of every conjunction sign (glued "^role", spaced "^ role")
+        import re as _re
+        s = _re.sub(r'(?<=\)) \^\n?', lambda m: rng.choice([' ^', ' ^ ', '^', ' ^\n', '^ ']), s)
     return s
 
 
@@ -88,13 +104,17 @@ def s_format(rng):
         t = rng.choice([(None, []), ('', []), ('a', []), ('a', [('ARG0', 'b'), ('/', None), (':r', '')]),
                         ('a', [('/', 'x'), (':q', 0), (':r', 0.0), (':s', -2), (':t', ('b', [(':u', 1.5)]))])])
     tree = Tree(t, metadata=gen.gen_metadata(rng) if maybe(rng, 0.3) else {})
-    return {'op': 'format', 'tree': j_tree(tree), 'indent': rng.choice([None, -1, -1, 0, 1, 2, 3, 4, 7]),
-            'compact': maybe(rng, 0.4)}
+    op = {'op': 'format', 'tree': j_tree(tree), 'indent': rng.choice([None, -1, -1, 0, 1, 2, 3, 4, 7]),
+          'compact': maybe(rng, 0.4)}
+    drop_defaults(rng, op)
+    return op
 
 
 def s_format_triples(rng):
     g = gen.gen_graph(rng)
-    return {'op': 'format_triples', 'triples': [j_triple(t) for t in g.triples], 'indent': maybe(rng, 0.5)}
+    op = {'op': 'format_triples', 'triples': [j_triple(t) for t in g.triples], 'indent': maybe(rng, 0.5)}
+    drop_defaults(rng, op)
+    return op
 
 
 def s_interpret(rng):
@@ -120,6 +140,7 @@ def s_configure(rng):
     if op['op'] == 'encode':
         op['indent'] = rng.choice([None, -1, 0, 2])
         op['compact'] = maybe(rng, 0.3)
+        drop_defaults(rng, op)
     elif m == 'default' and maybe(rng, 0.15):
         del op['model']
     return op
@@ -205,7 +226,10 @@ def s_errors(rng):
 
 def s_canonicalize_roles(rng):
     t = gen.gen_tree(rng, wf=maybe(rng, 0.7))
-    return {'op': 'canonicalize_roles', 'tree': j_tree(Tree(t)), 'model': gen.gen_model(rng)}
+    op = {'op': 'canonicalize_roles', 'tree': j_tree(Tree(t)), 'model': gen.gen_model(rng)}
+    if op['model'] == 'default' and maybe(rng, 0.3):
+        del op['model']
+    return op
 
 
 def s_transform(rng):
@@ -216,6 +240,8 @@ def s_transform(rng):
             g = layout.interpret(Tree(gen.reified_tree(rng)), py_model(m))
             if maybe(rng, 0.4):
                 g = penman.transform.dereify_edges(g, py_model(m))
+            elif maybe(rng, 0.3):
+                g = gen.corrupt_markers(rng, g)      # e.g. the node context pushed by the second edge
         except Exception:  # noqa: BLE001
             pass
     name = rng.choice(['reify_edges', 'dereify_edges', 'reify_attributes', 'indicate_branches'])
@@ -225,7 +251,7 @@ def s_transform(rng):
         except Exception:  # noqa: BLE001
             pass
     op = {'op': name, 'graph': j_graph(g), 'model': m}
-    if m == 'default' and maybe(rng, 0.2):
+    if m == 'default' and maybe(rng, 0.4):
         del op['model']
     return op
 
@@ -311,6 +337,8 @@ def gen_opts(rng):
     if maybe(rng, 0.3):
         o['check'] = True
     o['indent'] = rng.choice([-1, -1, None, 0, 1, 3])
+    if o['indent'] is None:
+        o['indentSpelling'] = rng.choice(['no', 'no', 'none', 'false', 'No', 'NONE', 'False'])
     if maybe(rng, 0.3):
         o['compact'] = True
     if maybe(rng, 0.15):
@@ -358,6 +386,7 @@ def s_loads(rng):
         s = s.replace(' ', rng.choice(gen.EXOTIC + ['\x0b', '\x0c']), 1)
     s = gen.newline_variant(rng, s)
     op = {'op': 'loads', 'model': rng.choice(['default', 'amr', 'noop'])}
+    drop_defaults(rng, op)
     k = rng.random()
     if k < 0.3:
         op.update({'s': s, 'container': 'str'})
@@ -377,8 +406,9 @@ def s_loads(rng):
 def s_dumps(rng):
     m = rng.choice(['default', 'amr'])
     gs = [gen.gen_graph(rng, m, mode=rng.choice(['decoded', 'decoded', 'hand'])) for _ in range(rng.choice([0, 1, 2, 3]))]
-    return {'op': 'dumps', 'graphs': [j_graph(g) for g in gs], 'model': m, 'indent': rng.choice([-1, None, 2]),
-            'compact': maybe(rng, 0.3)}
+    op = {'op': 'dumps', 'graphs': [j_graph(g) for g in gs], 'model': m, 'indent': rng.choice([-1, None, 2]),
+          'compact': maybe(rng, 0.3)}
+    return drop_defaults(rng, op)
 
 
 def s_dump(rng):
